@@ -309,8 +309,14 @@ static int iv_fd_epoll_event_rx_on(struct iv_state *st)
 				iv_active_fd, &event);
 	} while (ret < 0 && errno == EINTR);
 
-	if (ret == 0)
+	if (ret == 0) {
 		st->numobjs++;
+	} else {
+		___mutex_lock(&iv_fd_epoll_active_fd_mutex);
+		if (!--iv_active_fd_refcount)
+			close(iv_active_fd);
+		___mutex_unlock(&iv_fd_epoll_active_fd_mutex);
+	}
 
 	return ret;
 }
